@@ -86,7 +86,8 @@ partial def attribution (tb : Tables) : TRef → Data Nat → List String
   | _, .leaf .nil => []
   | .nonNull t, d => attribution tb t d
   | .list t, .list xs => xs.flatMap (attribution tb t)
-  | .list _, .slice .fast _ => ["D18"]
+  | .list t, .slice .fast xs =>
+    if tb.fastSliceCopies then ["D18"] else xs.flatMap (fun x => attribution tb t (.leaf x))
   | .list t, .slice .reflect xs => xs.flatMap (fun x => attribution tb t (.leaf x))
   | .scalar s, .leaf v =>
     let a := (outTables tb s).armFor v.kind
@@ -121,7 +122,7 @@ def handle (tb : Tables) (c impl : T) : String :=
     | none => "bad-op"
     | some (t, d, hs) =>
       let ext := nativeExt hs
-      let (out, nerr) := resolveData ext (outTables tb) tb.leafErrNulls t d
+      let (out, nerr) := resolveData ext (outTables tb) tb.leafErrNulls tb.fastSliceCopies t d
       let cur := T.node "obs" [encOut out, T.ofNat nerr]
       let specOk := match impl with
         | .node "obs" [o, _] => (match decOut o with | some o => dataOk ext t d o | none => false)
@@ -137,6 +138,6 @@ def flags (tb : Tables) : List (String × Bool) :=
   let all : List Scalar := [.int, .int64, .float, .float64, .string, .id, .boolean, .time]
   let unsound := all.flatMap (fun s => (unsoundOutR tb.leafErrNulls s (outTables tb s)).map (fun p => flagOfArm tb.leafErrNulls s p.1 p.2))
   [("D15", unsound.contains "D15"), ("D16", unsound.contains "D16"), ("D48", unsound.contains "D48"),
-   ("D17", true), ("D18", true)]
+   ("D17", true), ("D18", tb.fastSliceCopies)]
 
 end Ggql.Driver.C05
